@@ -1,7 +1,7 @@
 (* C02 - every runner request is answered exactly once; queue full => busy error at once; the scheduler drains.
    Theorems only. *)
 From Coq Require Import List ZArith NArith Bool Lia Arith.
-From V Require Import Sched.Lts Sched.Reach Sched.InvOwn Sched.InvLock Sched.Refute Sched.Dead Sched.InvRef Sched.Drain Sched.Quiesce Sched.Examples.
+From V Require Import Sched.Lts Sched.Reach Sched.InvOwn Sched.InvLock Sched.Refute Sched.Dead Sched.InvRef Sched.Drain Sched.Quiesce Sched.InvLoad Sched.Examples.
 Import ListNotations.
 
 (* A submit that finds the pending queue full is answered in the same step with the busy error, the request is
@@ -102,3 +102,14 @@ Example C02_quiescent_complete_nonvacuous :
   fixed cfg_on /\ exists s ev, run cfg_on (init_m 1) (ex_load_unload ++ [LRun 0 1%Z]) = Some (s, ev) /\
     pendq s = [] /\ finq s = [] /\ expq s = [] /\ thr s = [PSel; CSel; TDone; TDone] /\ unlq s = 0 /\ loaded s = [].
 Proof. split. reflexivity. vm_compute. eexists; eexists; repeat split; reflexivity. Qed.
+
+(* "Answered" means: with an error or with a runner that can be used - a success reply is only sent for a runner
+   whose load has completed (any configuration; Sched/InvLoad.v, also exported as C01_no_grant_loading). *)
+Theorem C02_reply_success_loaded :
+  forall c m ls s ev l s' e q r cl, run c (init_m m) ls = Some (s, ev) ->
+  step c s l = Some (s', e) -> In (EReply q (ROk r cl)) e -> exists x, getr s r = Some x /\ r_loading x = false.
+Proof.
+  intros c m ls s ev l s' e q r cl H Hs Hin. apply rloading_false.
+  eapply no_grant_loading; eauto. eapply run_Reach; eauto.
+Qed.
+Print Assumptions C02_reply_success_loaded.
